@@ -318,10 +318,13 @@ pub fn logs(m: &mut M, r: &mut Rng, n: u64) {
                 m.load(0, pow2(k), 0.0);
             }
             3 => {
-                // arguments whose logarithm is close to a half-integer: exp(k/2) rounded
-                let k = r.range(-1300, 1300) as f64 / 2.0;
-                let h = k.exp();
-                if h.is_finite() && h > 1e-300 {
+                // arguments whose logarithm is within an ulp of a multiple of 1/4 (the Newton iterate then has
+                // a high word exactly on a quarter / half-integer and a low word of either sign: exp's
+                // reduction ties), on both sides
+                let k = r.range(-2600, 2600) as f64 / 4.0;
+                let h0 = k.exp();
+                if h0.is_finite() && h0 > 1e-300 {
+                    let h = match r.below(4) { 0 => next_up_mag(h0), 1 => next_down_mag(h0), _ => h0 };
                     load_near(m, r, 0, h);
                 } else {
                     m.load(0, 2.0, 0.0);
